@@ -452,7 +452,8 @@ def run_check(modname, tier, seed, procs=None):
         print("HARNESS-ERROR (no verdict):")
         for e in acc.harness_errors:
             print("  " + e.replace("\n", "\n  "))
-        return 2
+        # violations found elsewhere in the run stand (exit 1); a crash with no violation at all is exit 2
+        return 1 if reported else 2
     return 1 if reported else 0
 
 
